@@ -31,10 +31,18 @@ type vfChooser struct {
 	mu       sync.Mutex
 	log      []vfChoicePoint
 	override map[string]int
+	jitters  int  // jitter draws so far in this execution (each gets its own instant)
 	coinDef  bool // default gater coin answer (true = accept)
 }
 
 var vfCh = &vfChooser{coinDef: true}
+
+// newExecution resets what is counted per execution.
+func (c *vfChooser) newExecution() {
+	c.mu.Lock()
+	c.jitters = 0
+	c.mu.Unlock()
+}
 
 func (c *vfChooser) begin(override map[string]int) {
 	c.mu.Lock()
@@ -106,12 +114,18 @@ func vfInstallHooks() {
 		return true
 	}
 	verifHooks.pick = func(idx, n int) int {
-		if n > 16 {
-			// a draw from a large range (the announce-retry jitter, 1..1000 ms): the explorer owns the two ends
+		if n > 64 {
+			// a draw from a large range (the announce-retry jitter, 1..1000 ms): the explorer owns the two ends;
+			// successive draws of one execution land on distinct instants (sleepers that wake at the same virtual
+			// instant run in an order nobody owns)
+			vfCh.mu.Lock()
+			k := vfCh.jitters % 32
+			vfCh.jitters++
+			vfCh.mu.Unlock()
 			if vfCh.choose("jitter", fmt.Sprint(n), 0, 2, 0) == 1 {
-				return n - 1
+				return n - 1 - k
 			}
-			return 0
+			return k
 		}
 		return vfCh.choose("pick", "", 0, n, 0)
 	}
